@@ -86,7 +86,7 @@ func NewCommentReader(r io.Reader, startMatches, endMatches [][]byte, isComments
 
 		var extra int
 		left := data[pos+len(startMatches[index]):]
-		if extra = bytes.Index(left, endMatches[index]); extra == -1 {
+		if extra = indexEnd(left, endMatches[index], !isComments[index]); extra == -1 {
 			if atEOF {
 				if requiredMatches[index] {
 					return 0, nil, commentNotMatch
@@ -140,6 +140,27 @@ func (v *commentReader) Read(p []byte) (n int, err error) {
 	}
 
 	return
+}
+
+// get the position of the end flag in data.
+// when escape is true(the region is a quoted string, not a comment), a backslash
+// escapes the next byte, so an escaped quote never ends the string.
+func indexEnd(data, flag []byte, escape bool) int {
+	if !escape {
+		return bytes.Index(data, flag)
+	}
+
+	for i := 0; i < len(data); i++ {
+		if data[i] == '\\' {
+			i++
+			continue
+		}
+		if bytes.HasPrefix(data[i:], flag) {
+			return i
+		}
+	}
+
+	return -1
 }
 
 // get the first match in flags.
